@@ -309,6 +309,7 @@ func c18Eval(w *W, r *rand.Rand, op string, args []interface{}) {
 			}
 			o, _ := callExpr(e, CallEval, fetcherFor(b, nil), nil, false)
 			w.Evals++
+			w.Sample(op, fmt.Sprintf("%s %s options=%s -> %s", firstN(src, 200), firstN(b.String(), 200), opts, o))
 			if asVars {
 				w.Inc("variable_cases")
 			} else if opts == OptAll {
